@@ -366,10 +366,11 @@ class ErrorFreePart:
                 if stale:
                     nt = True
                     ctx.label("stale-tag-removed")
-                single = len(rs) == 1 and not rs[0]["spec"].get("flag_extra") and rs[0]["spec"].get("mapq", 60) >= 20
+                # a plain read or read pair (both mates primary, well mapped)
+                single = all(not x["spec"].get("flag_extra") and x["spec"].get("mapq", 60) >= 20 for x in rs)
                 region_ok = o["regions"] is None
                 if single and len(sets) == 1 and region_ok and not rs[0]["spec"].get("bx"):
-                    ctx.violation("haplotag:untagged-but-informative", "single-segment primary read %s covers phased heterozygous variants of exactly one set %r but is untagged" % (a.query_name, sorted(sets)))
+                    ctx.violation("haplotag:untagged-but-informative", "primary read (pair) %s covers phased heterozygous variants of exactly one set %r but is untagged" % (a.query_name, sorted(sets)))
         # ---- metamorphic: swap the haplotypes of one phase set
         si, ci, k = case["swapset"]
         s = case["samples"][si]
